@@ -10,7 +10,10 @@ for d in sorted(glob.glob('/verif/seeded/*/')):
     if isinstance(hist, list): hist = ' '.join(hist)
     missed = 'MISS' in hist or 'MISS' in res
     note = ''
-    if missed:
+    if 'MISS avoided' in hist:
+        mm = re.search(r'(C\d\d) strengthened', hist)
+        note = f"miss predicted from the description; {mm.group(1) if mm else 'check'} strengthened before the first run"
+    elif missed:
         mm = re.search(r'(C\d\d) strengthened', hist)
         note = f"missed at first; {mm.group(1) if mm else 'check'} strengthened, now caught"
     if 'behaviour-preserving' in hist:
